@@ -234,6 +234,17 @@ def rule_B2(ctx):
                 and isinstance(v.args[0], (ast.Tuple, ast.List)) and all(isinstance(e, (ast.Tuple, ast.List)) and len(e.elts) == 2 for e in v.args[0].elts):
             d = ast.Dict(keys=[e.elts[0] for e in v.args[0].elts], values=[e.elts[1] for e in v.args[0].elts])
             return ast.copy_location(d, v)
+        if isinstance(v, ast.Call) and isinstance(v.func, ast.Name) and v.func.id == "dict" and len(v.args) == 1 and not v.keywords \
+                and isinstance(v.args[0], ast.Call) and isinstance(v.args[0].func, ast.Name) and v.args[0].func.id == "enumerate" and not v.args[0].keywords \
+                and 1 <= len(v.args[0].args) <= 2 and isinstance(v.args[0].args[0], (ast.Tuple, ast.List)) \
+                and (len(v.args[0].args) == 1 or (isinstance(v.args[0].args[1], ast.Constant) and isinstance(v.args[0].args[1].value, int))):
+            # dict(enumerate(SEQ[, start])): the position in SEQ is the key
+            start = v.args[0].args[1].value if len(v.args[0].args) == 2 else 0
+            els = v.args[0].args[0].elts
+            d = ast.Dict(keys=[ast.Constant(value=start + i) for i in range(len(els))], values=list(els))
+            ast.copy_location(d, v)
+            ast.fix_missing_locations(d)
+            return d
         return None
 
     def only_dict(fn):
@@ -283,6 +294,11 @@ def rule_B2(ctx):
             half = (len(inner) - 1) // 2
             l, r = inner[:half], inner[half + 1:]
             if l.endswith(",0)") and r.endswith(",1)") and l[:-3] == r[:-3] and l.startswith("sub(sub(") and l[:-3].endswith(f",mod({b},12))"):
+                m = True
+        elif k.startswith("cls(*sub(") and k.endswith(f",floordiv({b},12))"):
+            # cls(*table[n % 12], octave): the table's entries are the (degree, sharp) pairs checked above
+            inner = k[len("cls(*"):-len(f",floordiv({b},12))")]
+            if inner.endswith(f",mod({b},12))") and inner.count("mod(") == 1:
                 m = True
         shapes.append((bool(m), k.endswith(f",floordiv({b},12))"), f",mod({b},12))" in k))
     ok = bool(prs) and all(sh[1] and sh[2] for sh in shapes)
